@@ -15,10 +15,11 @@ import (
 // Oracle: whole-output equality with the independent top-down renderer on the merged forest, and err == nil.
 
 type c01Case struct {
-	Forest model.Forest   `json:"forest"`
-	Sp     model.Spelling `json:"spelling"`
-	Branch *model.Branch  `json:"branch"`
-	NoIter bool           `json:"noIter"`
+	Forest  model.Forest   `json:"forest"`
+	Sp      model.Spelling `json:"spelling"`
+	Branch  *model.Branch  `json:"branch"`
+	NoIter  bool           `json:"noIter"`
+	NilOpts bool           `json:"nilOpts,omitempty"`
 }
 
 func init() { registerReplay("c01", c01Check) }
@@ -26,7 +27,7 @@ func init() { registerReplay("c01", c01Check) }
 func c01Check(c c01Case) string {
 	doc := model.Spell(c.Forest, c.Sp)
 	want, _ := model.Render(model.Merge(c.Forest), branchOrDefault(c.Branch))
-	got, err, pan := outputMD(doc, ops.Opts{Branch: c.Branch, NoIter: c.NoIter})
+	got, err, pan := outputMD(doc, ops.Opts{Branch: c.Branch, NoIter: c.NoIter, NilOpts: c.NilOpts})
 	switch {
 	case pan != "":
 		return fmt.Sprintf("panic on well-formed document %q: %s", doc, pan)
@@ -81,7 +82,9 @@ func c01Record(col *collector, c c01Case) {
 		}
 	}
 	col.eval(nontrivial, hash64(doc, fmt.Sprint(c.Branch), fmt.Sprint(c.NoIter)), cl...)
-	col.sample(func() any { return map[string]any{"doc": doc, "branch": c.Branch, "noIter": c.NoIter, "forest": c.Forest.String()} })
+	col.sample(func() any {
+		return map[string]any{"doc": doc, "branch": c.Branch, "noIter": c.NoIter, "forest": c.Forest.String()}
+	})
 }
 
 func isASCII(s string) bool {
@@ -109,7 +112,7 @@ func TestC01Exhaustive(t *testing.T) {
 			}
 			for _, b := range branchPanel {
 				for _, noIter := range []bool{false, true} {
-					c := c01Case{Forest: f, Sp: sp, Branch: b, NoIter: noIter}
+					c := c01Case{Forest: f, Sp: sp, Branch: b, NoIter: noIter, NilOpts: i%5 == 0}
 					c01Record(col, c)
 					if msg := c01Check(c); msg != "" {
 						violation(t, "C01", "c01", c, msg)
@@ -155,7 +158,7 @@ func c01Gen() *rapid.Generator[c01Case] {
 		if f.Depth() > 16 && sp.Unit > 3 {
 			sp.Unit = 1 + sp.Unit%3 // keep deep documents small
 		}
-		return c01Case{Forest: f, Sp: sp, Branch: genBranch().Draw(t, "branch"), NoIter: rapid.Bool().Draw(t, "noIter")}
+		return c01Case{Forest: f, Sp: sp, Branch: genBranch().Draw(t, "branch"), NoIter: rapid.Bool().Draw(t, "noIter"), NilOpts: rapid.IntRange(0, 3).Draw(t, "nilOpts") == 0}
 	})
 }
 
